@@ -3,6 +3,7 @@ package checks
 import (
 	"context"
 	"fmt"
+	"math/rand"
 	"sync/atomic"
 	"testing"
 	"testing/synctest"
@@ -19,7 +20,7 @@ func TestC13(t *testing.T) {
 	mon.Main(t, mon.Check{
 		ID:    "C13",
 		Level: "exploration",
-		Rule:  "real gbn code in virtual time, keepalive on. (D) dead peer: after some acknowledged traffic the transport goes silent (incoming link blackholed, or both) at an instant swept over offsets 0..2*ping after the last activity and over exact multiples of the ping interval; at that instant the application queues k in {0,1,N-1,N,N+5} messages; ping/pong in {(5s,3s),(7s,3s),(1s,1s),(100ms,50ms),(30s,10s),(1s,3s)}, N in {1,3,20,254}, static and adaptive timeouts. Oracle: the endpoint closes itself within ping+pong+10*resendTimeout(at closure)+1s of the silence instant, and its blocked callers return. (H) healthy idle: both ends keepalive (mailbox's 7s/3s vs 5s/3s and others), round-trip time in {0, pong/2, pong-20ms}, 1-24 h of virtual idleness; oracle: no endpoint closes and ping packets were seen on the wire. Non-trivial = silence was injected while the connection was open / pings observed; distinct = (kind, ping, pong, N, backlog class, one/two-sided, timeout mode, offset bucket).",
+		Rule:  "real gbn code in virtual time, keepalive on. (D) dead peer: after some acknowledged traffic the transport goes silent (incoming link blackholed, or both) at an instant swept over offsets 0..2*ping after the last activity and over exact multiples of the ping interval; at that instant the application queues k in {0,1,N-1,N,N+5} messages; ping/pong in {(5s,3s),(7s,3s),(1s,1s),(100ms,50ms),(30s,10s),(1s,3s)}, N in {1,3,20,254}, static and adaptive timeouts. Oracle: the endpoint closes itself within ping+pong+10*resendTimeout(at closure)+1s of the silence instant, and its blocked callers return. (H) healthy idle: both ends keepalive (mailbox's 7s/3s vs 5s/3s and others), round-trip time in {0, pong/2, pong-20ms}, 1-24 h of virtual idleness, a third of them with the ACK of a keepalive ping lost now and then (the resent ping is answered by a NACK within the pong timeout); oracle: no endpoint closes and ping packets were seen on the wire. Non-trivial = silence was injected while the connection was open / pings observed; distinct = (kind, ping, pong, N, backlog class, one/two-sided, timeout mode, offset bucket).",
 		Assumptions: []string{
 			"detection bound uses the connection's own (possibly boosted) resend timeout read through the hook: the send loop may sit in the resend sync wait (3x resend timeout) when the timers fire",
 		},
@@ -227,7 +228,14 @@ func runC13Healthy(c *mon.Case) {
 		idle = 20 * time.Minute // keep the event count bounded for the 100 ms setting
 	}
 	pre := rng.Intn(10)
-	rep := map[string]any{"kind": "H", "conf": conf.String(), "rtt": rtt.String(), "idle": idle.String(), "pre_messages": pre}
+	// A third of the healthy cases lose the ACK of a keepalive ping now and
+	// then (never twice in a row): the ping is resent after the resend timeout
+	// and the live peer answers it with a NACK, well within the pong timeout.
+	ackLoss := rng.Intn(3) == 0 && minPong >= 3*time.Second && rtt < time.Second
+	if ackLoss {
+		conf.Static, conf.Resend = true, time.Second
+	}
+	rep := map[string]any{"kind": "H", "ack_loss": ackLoss, "conf": conf.String(), "rtt": rtt.String(), "idle": idle.String(), "pre_messages": pre}
 	var pings atomic.Int64
 	synctest.Test(c.T, func(t *testing.T) {
 		ctx, cancel := context.WithCancel(context.Background())
@@ -240,6 +248,22 @@ func runC13Healthy(c *mon.Case) {
 			}
 		}
 		p.C2S.OnSend, p.S2C.OnSend = cnt, cnt
+		if ackLoss {
+			for _, l := range []*sim.Link{p.C2S, p.S2C} {
+				lastDropped := false
+				lr := rand.New(rand.NewSource(rng.Int63()))
+				l.SetDecider(func(idx int, pk sim.Pkt, now time.Time) sim.Decision {
+					if pk.Type == sim.TAck && !lastDropped && lr.Intn(4) == 0 && idx > 4 {
+						lastDropped = true
+						return sim.Decision{Drop: true}
+					}
+					if pk.Type == sim.TAck || pk.Type == sim.TNack {
+						lastDropped = false
+					}
+					return sim.Decision{}
+				})
+			}
+		}
 		ce, se := p.Connect(ctx)
 		if ce != nil || se != nil {
 			c.Shard.Inconc(fmt.Sprintf("handshake failed: %v / %v", ce, se))
